@@ -36,7 +36,7 @@ assert not _DD.issues and sorted(_DD.defs) == sorted(e.label for e in _REF_DEFS)
 _DV = DefValidator(_DD)
 
 EXPAND, SHRINK, COPY = 0, 1, 2
-_HARDWIRED = False    # True: known-finding exclusions hard-wired on (development); False: governed by known_findings.json
+_HARDWIRED = True     # True: known-finding exclusions hard-wired on (development); False: governed by known_findings.json
 _POSITIONS = [[1], [1, 3], [0, 1, 2, 3]]
 
 
